@@ -1,5 +1,6 @@
 import Driver.Util
 import ReplicatModel.Repo
+import ReplicatModel.RepoConc
 open Lean Replicat Replicat.Repo
 namespace Driver.HRepo
 def nameJson : Repo.Name → Json
@@ -106,6 +107,80 @@ def loadedJson (l : Loaded) : Json :=
   Json.mkObj [("fam", jnat l.fam), ("sid", jnat l.sid), ("chunks", natArr l.chunks),
               ("data", match l.data with | some b => bodyJson b | none => Json.null)]
 
+/-! ## `repo.conc`: replay of a per-call event trace of overlapping commands on the concurrent semantics (RepoConc.lean) -/
+
+def parseSnapCmd (j : Json) : Except String SnapCmd := do
+  pure ⟨← parseUser (← j.getObjVal? "user"), ← getNatList j "stream", ← (← getArr j "files").toList.mapM parseFile,
+        ← getNat j "ts", ← getNat j "sid", ← getNat j "workers"⟩
+
+def parseFilter (j : Json) (k : String) : Except String (Option (List Nat)) := do
+  match j.getObjVal? k with
+  | .ok (Json.arr a) => do pure (some (← a.toList.mapM (·.getNat?)))
+  | _ => pure none
+
+def parseQuery (j : Json) : Except String Query := do
+  let kind ← getStr j "kind"
+  let u ← parseUser (← j.getObjVal? "user")
+  let sre ← parseFilter j "sre"
+  let fre ← parseFilter j "fre"
+  match kind with
+  | "list" => pure (.list u sre)
+  | "listfiles" => pure (.listFiles u sre fre)
+  | "restore" => pure (.restore u sre fre)
+  | _ => throw s!"bad query kind {kind}"
+
+def parseEv (j : Json) : Except String Ev := do
+  match (← j.getArr?).toList with
+  | [Json.str "exists", i, c, r] => pure (.exists (← i.getNat?) (← c.getNat?) (← r.getBool?))
+  | [Json.str "upload", i, n, o] => pure (.upload (← i.getNat?) (← parseName n) (← parseObj o))
+  | [Json.str "commit", i] => pure (.commit (← i.getNat?))
+  | [Json.str "read", q] => pure (.read (← parseQuery q))
+  | _ => throw "bad event"
+
+def optNat : Option Nat → Json
+  | some t => jnat t
+  | none => Json.null
+
+def replyJson : Reply → Json
+  | .rows (.ok rows) => Json.mkObj [("kind", Json.str "list"), ("error", Json.null),
+      ("rows", Json.arr (rows.map fun r => Json.arr #[jnat r.sid, optNat r.ts, optNat r.files]).toArray)]
+  | .rows (.error e) => Json.mkObj [("kind", Json.str "list"), ("error", errJson e)]
+  | .fileRows (.ok rows) => Json.mkObj [("kind", Json.str "listfiles"), ("error", Json.null),
+      ("rows", Json.arr (rows.map fun r => natArr [r.1, r.2.1, r.2.2]).toArray)]
+  | .fileRows (.error e) => Json.mkObj [("kind", Json.str "listfiles"), ("error", errJson e)]
+  | .files (.ok fs) => Json.mkObj [("kind", Json.str "restore"), ("error", Json.null), ("files", Json.arr (fs.map fileJson).toArray)]
+  | .files (.error e) => Json.mkObj [("kind", Json.str "restore"), ("error", errJson e)]
+
+def pickCmds (cmds : List SnapCmd) (order : List Nat) : List SnapCmd := order.filterMap (fun i => cmds[i]?)
+
+/-- distinct (command, chunk) pairs that occur in an `exists` or `upload` event, with the model's two counters -/
+def countRows (tr : List Ev) : List (Nat × Content) :=
+  (tr.filterMap fun e => match e with
+    | .exists i c _ => some (i, c)
+    | .upload i (.chunk _ c) _ => some (i, c)
+    | _ => none).eraseDups
+
+def handleConc (enc : Bool) (j : Json) : Except String Json := do
+  let s ← parseStore (← j.getObjVal? "store")
+  let cmds ← (← getArr j "cmds").toList.mapM parseSnapCmd
+  let tr ← (← getArr j "trace").toList.mapM parseEv
+  let orders ← (← getArr j "orders").toList.mapM parseNats
+  let st0 := CState.init s cmds
+  let seqs := orders.map fun o => storeJson (run enc s ((pickCmds cmds o).map SnapCmd.op))
+  -- the sequential schedule, replayed as a concurrent execution (`sequential_is_concurrent`)
+  let seqOk : Bool := match crun cmds st0 (seqTraceAll 0 s cmds) with
+    | some st => st.complete && (storeJson st.store == storeJson (run enc s (cmds.map SnapCmd.op)))
+    | none => false
+  match crun cmds st0 tr with
+  | none =>
+    pure (Json.mkObj [("accepts", Json.bool false),
+      ("rejected_at", match firstRejected cmds st0 tr 0 with | some k => jnat k | none => Json.null)])
+  | some st =>
+    pure (Json.mkObj [("accepts", Json.bool true), ("complete", Json.bool st.complete), ("store", storeJson st.store),
+      ("replies", Json.arr ((replies enc cmds st0 tr).map replyJson).toArray),
+      ("counts", Json.arr ((countRows tr).map fun (i, c) => natArr [i, c, uploads tr i c, absents tr i c]).toArray),
+      ("sequential", Json.arr seqs.toArray), ("sequential_schedule_accepted", Json.bool seqOk)])
+
 /-- requests `repo.*` / `trace.*` / `cache.*` (see DESIGN.md Appendix A) -/
 def handleRepo (op : String) (j : Json) : Except String Json := do
   let enc ← (getBool j "enc" <|> pure true)
@@ -162,6 +237,7 @@ def handleRepo (op : String) (j : Json) : Except String Json := do
     let o ← parseOp (← j.getObjVal? "cmd")
     let tr ← (← getArr j "trace").toList.mapM parseMut
     pure (Json.mkObj [("accepts", Json.bool (acceptsPrefix (planOf enc s o) tr)), ("store_after_prefix", storeJson (applyMuts s tr))])
+  | "repo.conc" => handleConc enc j
   | _ => throw s!"unknown op {op}"
 
 end Driver.HRepo
